@@ -85,6 +85,9 @@ type SetInst struct {
 	Sink func(line string)
 }
 
+// SetsWithOwnTracer counts the sets that were given their tracer as an option.
+var SetsWithOwnTracer int
+
 // NewSet parses nothing: defs come from schema.Parse. The recording subscriber is registered before anything
 // is started, has a large buffer and its own goroutine.
 func NewSet(defs *schema.Definitions, sink func(string), opts ...bpmn.Option) (*SetInst, error) {
@@ -98,6 +101,12 @@ func NewSet(defs *schema.Definitions, sink func(string), opts ...bpmn.Option) (*
 	}
 	sort.Slice(s.procs, func(i, j int) bool { return len(s.procs[i]) > len(s.procs[j]) })
 	all := append([]bpmn.Option{bpmn.WithContext(ctx)}, opts...)
+	// every second set (by its number of processes and of nodes in the first one) is given its tracer EXPLICITLY, as an
+	// application that wants to own it does: the set's tracer is the set's, each member still traces on its own
+	if ps := *defs.Processes(); (len(ps)+len(ps[0].FlowElements()))%2 == 0 {
+		all = append(all, bpmn.WithTracer(tracing.NewTracer(ctx)))
+		SetsWithOwnTracer++
+	}
 	e := bpmn.NewEngine(bpmn.WithEngineContext(ctx))
 	ps, err := e.NewProcessSet(defs, all...)
 	if err != nil {
